@@ -565,3 +565,135 @@ func tail8(s []int, n int) []int {
 	}
 	return s
 }
+
+// c08KnownSetup builds the minimal directory of the known-finding replays:
+// one uploadable week with two counter files.
+func c08KnownSetup(t *testing.T, base string) (dir string, cfg *telemetry.UploadConfig, start time.Time, week string) {
+	dir = vuFreshDir(base)
+	start = time.Date(2024, 3, 10, 12, 0, 0, 0, time.UTC)
+	cfg = &telemetry.UploadConfig{GOOS: []string{"linux"}, GOARCH: []string{"amd64"}, GoVersion: []string{"go1.22.1"}, SampleRate: 1,
+		Programs: []*telemetry.ProgramConfig{{Name: "cmd/go", Versions: []string{"go1.22.1"}, Counters: []telemetry.CounterConfig{{Name: "a/b", Rate: 1}}}}}
+	vuSetMode(dir, "on 2000-01-01")
+	os.MkdirAll(filepath.Join(dir, "upload"), 0777)
+	end := time.Date(2024, 3, 6, 0, 0, 0, 0, time.UTC)
+	week = "2024-03-06"
+	var files []*vmodel.CountFile
+	for i := 1; i <= 2; i++ {
+		f := &vmodel.CountFile{Build: vmodel.Build{Program: "cmd/go", Version: "go1.22.1", GoVersion: "go1.22.1", GOOS: "linux", GOARCH: "amd64"},
+			Begin: end.AddDate(0, 0, -7), End: end, Kind: "ok", Counts: map[string]uint64{"a/b": uint64(i)},
+			Base: fmt.Sprintf("go@go1.22.1-go1.22.1-linux-amd64-2024-02-28_%d.v1.count", i)}
+		f.Bytes = vgen.EncodeCountFile(f)
+		files = append(files, f)
+	}
+	vuWriteFiles(dir, files)
+	return
+}
+
+func c08LastOp(ctl *vhook.Controller, thread int) (op, arg string) {
+	for i := len(ctl.Log) - 1; i >= 0; i-- {
+		if ctl.Log[i].Thread == thread {
+			return ctl.Log[i].Op, ctl.Log[i].Arg
+		}
+	}
+	return "", ""
+}
+
+// TestVerifC08Known replays the two known findings with fixed schedules. If a
+// defect has been repaired its replay reports nothing.
+func TestVerifC08Known(t *testing.T) {
+	defer vstats.Flush()
+	base := t.TempDir()
+	newX := func() func(b []byte) {
+		x := 0.25
+		return func(b []byte) {
+			x += 0.0625
+			bits := math.Float64bits(0.5 + x)
+			for i := range b {
+				b[i] = 0
+			}
+			for i := 0; i < 8 && i < len(b); i++ {
+				b[i] = byte(bits >> (8 * i))
+			}
+		}
+	}
+	// --- incomplete-report-read: A creates local/W.json exclusively and is descheduled before
+	// writing its content; B runs to completion (reads the empty file, posts it, answer lost);
+	// A resumes and delivers the real report.
+	func() {
+		dir, cfg, start, week := c08KnownSetup(t, base)
+		defer os.RemoveAll(dir)
+		w := &c08World{dir: dir, runOf: map[int]int{0: 0, 1: 1}, outcomes: []string{"neterr-after", "200"}}
+		ctl := vhook.New()
+		ctl.KeepLog = true
+		ctl.PostFn = w.post
+		ctl.RandFn = newX()
+		ua := vuUploader(dir, cfg, "v1.2.3", "http://upload.test/upload", start)
+		ub := vuUploader(dir, cfg, "v1.2.3", "http://upload.test/upload", start)
+		a := ctl.Go("A", func() { ua.Run() })
+		b := ctl.Go("B", func() { ub.Run() })
+		ctl.Install()
+		defer vhook.Uninstall()
+		for i := 0; i < 10000 && !a.Done; i++ {
+			ctl.Step(a)
+			if op, arg := c08LastOp(ctl, 0); op == "OpenFile" && arg == filepath.Join(dir, "local", week+".json") {
+				break
+			}
+		}
+		ctl.RunAlone(b, 100000)
+		ctl.RunAlone(a, 100000)
+		vhook.Uninstall()
+		vstats.Case("fixed schedule: A OpenFile(O_EXCL) local/W.json; B runs to completion; A resumes", true, "known-replay")
+		if w.viol != "" {
+			if w.violSig == "incomplete-report-read" && vstats.Known(w.violSig) {
+				return
+			}
+			t.Fatalf("%s", w.viol)
+		}
+	}()
+	// --- recreated-after-4xx: C passes createReport's existence checks and is descheduled; A creates the
+	// reports and posts (answer lost after the server processed it); B posts the same file, gets 4xx
+	// and removes it; C re-creates local/W.json with its own X and gets it acknowledged.
+	func() {
+		dir, cfg, start, week := c08KnownSetup(t, base)
+		defer os.RemoveAll(dir)
+		w := &c08World{dir: dir, runOf: map[int]int{0: 0, 1: 1, 2: 2}, outcomes: []string{"neterr-after", "400", "200"}}
+		ctl := vhook.New()
+		ctl.KeepLog = true
+		ctl.PostFn = w.post
+		ctl.RandFn = newX()
+		us := []*uploader{}
+		for i := 0; i < 3; i++ {
+			us = append(us, vuUploader(dir, cfg, "v1.2.3", "http://upload.test/upload", start))
+		}
+		a := ctl.Go("A", func() { us[0].Run() })
+		b := ctl.Go("B", func() { us[1].Run() })
+		c := ctl.Go("C", func() { us[2].Run() })
+		ctl.Install()
+		defer vhook.Uninstall()
+		// C until it has stat'ed local/W.json (the second existence check) and found nothing
+		for i := 0; i < 10000 && !c.Done; i++ {
+			ctl.Step(c)
+			if op, arg := c08LastOp(ctl, 2); op == "Stat" && arg == filepath.Join(dir, "local", week+".json") {
+				break
+			}
+		}
+		// B lists the directory only after A has created the report: run A until it has posted, then B fully, then A's rest
+		for i := 0; i < 10000 && !a.Done; i++ {
+			ctl.Step(a)
+			if op, _ := c08LastOp(ctl, 0); op == "http.Post" {
+				break
+			}
+		}
+		ctl.RunAlone(a, 100000)
+		ctl.RunAlone(b, 100000)
+		ctl.RunAlone(c, 100000)
+		vhook.Uninstall()
+		vstats.Case("fixed schedule: C passes existence checks; A posts (answer lost); B gets 4xx and discards; C re-creates and posts", true, "known-replay")
+		if w.viol != "" {
+			if w.violSig == "recreated-after-4xx" && vstats.Known(w.violSig) {
+				return
+			}
+			t.Fatalf("%s", w.viol)
+		}
+	}()
+}
